@@ -777,6 +777,18 @@ impl ParserState {
             }
         }
 
+        // Forced bytes can start with a special token spelled as \xFF[id]
+        // (see apply_token()); only that token can come next.
+        if start.first() == Some(&TokTrie::SPECIAL_TOKEN_MARKER) {
+            let mut set = computer.trie().alloc_token_set();
+            if let Some((_, tid)) = parse_numeric_token(&start[1..]) {
+                if (tid as usize) < computer.trie().vocab_size() {
+                    set.allow_token(tid);
+                }
+            }
+            return set;
+        }
+
         let limits = self.limits.clone();
         let dfa = &mut self.lexer_mut().dfa;
         dfa.set_fuel(limits.step_lexer_fuel);
